@@ -136,4 +136,39 @@ REGISTRY = {
         "level_note": "Trusted: Coq kernel/vm_compute, hand-written model (checked by correspondence), harness, dump hook. No axioms.",
         "explanation": "C19_* proved; per-host dumps compared with the model and with each other.",
     },
+    "C08": {
+        "corr": "C08",
+        "trusted": [
+            "modelled: JoinLocalHash / JoinKeyedOuter (add_item, side_ended, assertions at FlushAndRestart), JoinKeyedInner, JoinLocalSortMerge (advance / discard_right on sorted vectors), IntervalJoin (advance with the per-key deques), merge_distinct + Reorder in front of the interval join, and the two-input Start they sit behind",
+            "assumed: sort_unstable_by sorts (order of equal keys immaterial: outputs compared as multisets); HashMap drain order immaterial",
+            "the distribution of a join over replicas (ship_hash / ship_broadcast_right) is the routing of C03 plus whole-pipeline runs (C01)",
+        ],
+        "assumptions": ["joins take non-timestamped items (timestamped input panics in the implementation: explicit model state); interval join input sorted by timestamp, timestamps >= 0"],
+        "level_text": "Proof: every local join algorithm is modelled verbatim and proved, for all inputs (duplicate keys, one-sided keys, empty sides) and every interleaving of the two sides and of their end markers, to output a permutation of the relational join per iteration, with the end-of-iteration assertions holding and nothing carried over; the interval join outputs exactly the pairs inside the interval for all bounds. Tied to the code by driving the real Start::multiple -> join chains built with the public API with explicit delivery orders on both inputs.",
+        "level_note": "Trusted: Coq kernel/vm_compute, hand-written models (checked by correspondence), harness pacing (one batch in flight). No axioms.",
+        "explanation": "C08_* proved for all interleavings; correspondence over real join chains.",
+    },
+    "C02": {
+        "corr": "C02",
+        "trusted": [
+            "modelled: Batcher (Fixed / Single; Adaptive = Fixed plus clock-driven flushes), End::next over several downstream blocks, the wire format of remote_send / remote_recv (20-byte header + opaque body)",
+            "assumed, not verified: flume channels and TCP connections are reliable FIFO streams; bincode deserialize(serialize m) = m and serialized_size exact (bodies are opaque bytes in the model; the correspondence checks that the real decoder returns what was sent)",
+            "multiplexer / demultiplexer threads only call remote_send / remote_recv in a loop and look the endpoint up in a map; exercised by the multi-host pipeline runs of C01",
+        ],
+        "assumptions": ["payload sizes below 2^32 bytes"],
+        "level_text": "Proof: per receiving replica, the sequence received over a link is exactly the sequence the producer's End addressed to it, in order, for every strategy, batch mode and number of downstream blocks (batcher sequence + End invariant), and the wire format round-trips frames of several replicas on one connection. Tied to the code by driving the real End with hand-made receivers (batch boundaries compared exactly) and the real remote_send / remote_recv over byte buffers (header bytes compared with the model encoder). Partial: channel/TCP reliability and bincode are assumed.",
+        "level_note": "Trusted: Coq kernel/vm_compute, hand-written model (checked by correspondence), harness; flume/TCP FIFO reliability and bincode round-trip assumed. No axioms.",
+        "explanation": "C02_* proved; End and framing driven directly.",
+    },
+    "C03": {
+        "corr": "C03",
+        "trusted": [
+            "modelled: NextStrategy::index and End's choice of the receiving replica per downstream block, broadcast of control elements; forward-edge wiring from the scheduler model (C19)",
+            "assumed: group_by_hash is a deterministic function of the key (the harness passes the real hash values into the model); the random index of shuffle is arbitrary",
+        ],
+        "assumptions": ["all producers of a block see the same replica list (all-to-all wiring, C19) sorted by coordinate"],
+        "level_text": "Proof: for every strategy the set of receiving replicas of a data element is characterised (exactly one per downstream block; all for broadcast; a function of the key hash only for group-by, so equal keys from any producer meet), control elements reach every replica, forward edges are wired to exactly one consumer (same index when it exists). Tied to the code by driving the real End operator towards 1..3 downstream blocks with 1..5 hand-made replicas each, using the real group_by_hash values.",
+        "level_note": "Trusted: Coq kernel/vm_compute, hand-written model (checked by correspondence), harness. No axioms.",
+        "explanation": "C03_* proved; real End driven directly.",
+    },
 }
